@@ -203,29 +203,78 @@ def check_sides(rep, be: Backend, site, p, prefix):
 
 
 def check_ignore(rep, site, ev, prefix):
-    """W.ignore: the ignore list is the complement of the soft owners (all keys of the other layers)."""
+    """W.ignore: the ignore list is the complement of the soft owners: the keys of every layer other than k.  The list
+    is read as a union of segments `all keys of the layers j in <selection>`; the selection of each segment (all layers
+    under a guard on the layer, a slice of the partition) is evaluated for every k on partitions of 1..4 layers and the
+    union compared with {j : j ≠ k}."""
     iv = ev.ignore_view
     where = f"{site}:{ev.node.lineno}"
-    ok = False
     det = repr(iv)[:200]
-    verdict = None
-    if isinstance(iv, tuple) and iv[0] == "list" and len(iv[1]) == 1 and iv[1][0][0] == "each*":
-        _, b, fam, g, inner = iv[1][0]
-        layer_k = ("elem", ("at", PVAR, ("lin", K)), "layer")
-        me = ("elem", b, "layer")
-        neq = ("not", ("cmp", "==", *sorted([layer_k, me], key=repr)))
-        eq = ("cmp", "==", *sorted([layer_k, me], key=repr))
-        inner_ok = inner[0] == "each" and inner[2] == ("members", b) and isinstance(inner[4], ElemV) and inner[4].var == inner[1] and inner[3] == PTRUE
-        if fam == ("members", PVAR) and inner_ok:
-            if g == neq:
-                verdict = True
-            elif g == eq or g == PTRUE:
-                verdict = False
-                det = "keys of " + ("layer k itself" if g == eq else "every layer including k")
-    if verdict is None:
+    if not (isinstance(iv, tuple) and iv[0] == "list"):
         raise AnalysisError(f"{where}: unrecognised form of the ignore argument: {det}")
-    rep.check(verdict, f"{prefix}.ignore", where, "ignored owners", "ignore = keys of all layers other than k (complement of the soft owners)",
-              extracted=det if not verdict else "keys of the other layers", required="keys of the layers ≠ k", function=site)
+    layer_k = ("elem", ("at", PVAR, ("lin", K)), "layer")
+
+    def bound(x, k, n, dflt):
+        if x is None or x == ("c", None):
+            return dflt
+        if x == "k":
+            return k
+        if isinstance(x, tuple) and x[:1] == ("c",) and isinstance(x[1], int):
+            return x[1] if x[1] >= 0 else n + x[1]
+        if isinstance(x, tuple) and x[:1] == ("lin",):
+            tot = x[1][1]
+            for t, c in x[1][0]:
+                if t == "k":
+                    tot += c * k
+                elif t == ("len", PVAR):
+                    tot += c * n
+                else:
+                    return None
+            return tot
+        return None
+
+    selectors = []
+    for sg in iv[1]:
+        if sg[0] != "each*":
+            raise AnalysisError(f"{where}: unrecognised form of the ignore argument: {det}")
+        _, b, fam, g, inner = sg
+        inner_ok = inner[0] == "each" and inner[2] in (("members", b), ("members", ("elem", b, "plain")), ("members", ("elem", b, "layer"))) and isinstance(inner[4], ElemV) and inner[4].var == inner[1] and inner[3] == PTRUE
+        if not inner_ok:
+            raise AnalysisError(f"{where}: unrecognised form of the ignore argument: {det}")
+        me = ("elem", b, "layer")
+        eq = ("cmp", "==", *sorted([layer_k, me], key=repr))
+        if fam == ("members", PVAR):
+            lo = hi = None
+        elif fam[0] == "members" and isinstance(fam[1], tuple) and fam[1][:1] == ("slice",) and (fam[1][1] == PVAR or (isinstance(fam[1][1], tuple) and fam[1][1][:2] == ("elem", PVAR))):
+            lo, hi = fam[1][2], fam[1][3]
+        else:
+            raise AnalysisError(f"{where}: unrecognised form of the ignore argument: {det}")
+        if g == PTRUE:
+            gk = "all"
+        elif g == ("not", eq):
+            gk = "other"
+        elif g == eq:
+            gk = "same"
+        else:
+            raise AnalysisError(f"{where}: unrecognised form of the ignore argument: {det}")
+        selectors.append((lo, hi, gk))
+    bad = None
+    for n in (1, 2, 3, 4):
+        for k in range(n):
+            got = set()
+            for lo, hi, gk in selectors:
+                a, z = bound(lo, k, n, 0), bound(hi, k, n, n)
+                if a is None or z is None:
+                    raise AnalysisError(f"{where}: unrecognised form of the ignore argument: {det}")
+                for j in range(max(a, 0), min(z, n)):
+                    if gk == "all" or (gk == "other" and j != k) or (gk == "same" and j == k):
+                        got.add(j)
+            want = {j for j in range(n) if j != k}
+            if got != want and bad is None:
+                miss, extra = sorted(want - got), sorted(got - want)
+                bad = f"with {n} layers at layer {k}: " + (f"layers {miss} are not ignored" if miss else "") + (" and " if miss and extra else "") + (f"layer {extra} is ignored although its conditionals are the soft owners" if extra else "")
+    rep.check(bad is None, f"{prefix}.ignore", where, "ignored owners", "ignore = keys of all layers other than k (complement of the soft owners): a conditional of another layer that the optimum falsifies must not be reported in place of one of layer k",
+              extracted=bad or "keys of the other layers", required="keys of the layers ≠ k", function=site)
 
 
 def incoming_unchanged(rep, site, p, prefix):
@@ -616,6 +665,9 @@ def w_entry(rep, ex: Explorer, be: Backend, strict=True, extended=False, prefix=
         objs = rec_objects(be, rc)
         ok = len(objs) == n_objects
         rep.check(ok, f"{prefix}.start", f"{site}:{rc.node.lineno}", "constraint objects", f"{n_objects} constraint object(s) handed to the recursion", extracted=str(len(objs)), required=str(n_objects), function=site)
+        oids = [s_[1] for s_ in rc.snap if s_[0] in ("wcnf", "solver")]
+        rep.check(len(set(oids)) == len(oids), f"{prefix}.start", f"{site}:{rc.node.lineno}", "separate constraint objects", "each side has a constraint object of its own (what is fixed for one side must not constrain the other)",
+                  extracted=f"{len(oids)} arguments, {len(set(oids))} distinct object(s)", required="distinct objects", function=site)
         for i, (hard, soft) in enumerate(objs):
             want = []
             if be.lex and be.name == "rc2":
